@@ -31,7 +31,8 @@ def D(*a):
 
 
 NUMBERS = [-2.5, -1, 0, 0.5, 1, 2, 10, 43789, 43789.25, 2 ** 53, 2 ** 53 + 1, 10 ** 17, 10 ** 17 + 1]
-DATES = [D(1900, 3, 1), D(2000, 2, 29), D(2019, 11, 20), D(2019, 11, 20, 6, 0), D(9999, 12, 31)]
+DATES = [D(1900, 3, 1), D(2000, 2, 29), D(2019, 11, 20), D(2019, 11, 20, 6, 0), D(9999, 12, 31),
+         D(2019, 11, 20, 6, 0, 0, 250000), D(2019, 11, 20, 6, 0, 0, 750000)]     # two instants inside one second
 TEXTS = ['', '1', '10', '9', '-1', 'a', 'ab', 'b', 'true', 'Apple', 'apple', 'B']
 POOL = NUMBERS + DATES + TEXTS + [True, False, None]
 NONBLANK = [i for i, v in enumerate(POOL) if v is not None]
